@@ -15,6 +15,7 @@ C18 — property theorems: filtering preserves the mean, the time axis and the p
 import Nitime.Model.C18
 import Nitime.Lemmas.Parseval
 import Nitime.Lemmas.NumReal
+import Nitime.Lemmas.FiltFilt
 import Mathlib.Algebra.Order.Field.Basic
 import Mathlib.Tactic.Ring
 import Mathlib.Tactic.FieldSimp
@@ -367,6 +368,66 @@ theorem filtfilt_wrapper_linear (n : ℕ) (F : (ℕ → K) → ℕ → K)
   rw [hF, meanFn_linear, meanFn_linear]; ring
 
 end dc
+
+/-! ### `scipy.signal.filtfilt` itself (model `Model/FiltFilt.lean`): linear, so the assumption of
+`filtfilt_wrapper_linear` is discharged for the modelled algorithm -/
+section filtfiltModel
+open Nitime.FiltFilt
+variable {K : Type} [Field K] [CharZero K]
+
+theorem sum_lin (c : K) (u v : List K) (h : u.length = v.length) :
+    (lin c u v).sum = c * u.sum + v.sum := by
+  induction u generalizing v with
+  | nil => cases v with
+    | nil => simp [lin]
+    | cons _ _ => simp at h
+  | cons p u ih =>
+    cases v with
+    | nil => simp at h
+    | cons q v =>
+      rw [lin_cons, List.sum_cons, List.sum_cons, List.sum_cons, ih v (by simpa using h)]; ring
+
+theorem mean_lin (c : K) (u v : List K) (h : u.length = v.length) :
+    mean (lin c u v) = c * mean u + mean v := by
+  unfold mean
+  rw [sumL_eq, sumL_eq, sumL_eq, sum_lin c u v h, lin_length c u v h, ← h]
+  ring
+
+/-- the modelled `scipy.signal.filtfilt(b, a, ·)` (odd padding, two direct-form-II-transposed passes
+started from `zi`·edge sample, trimming) is **linear in the data** -/
+theorem model_filtfilt_linear (b a zi : List K) (p : ℕ) (c : K) (x x' : List K) (h : x.length = x'.length) :
+    filtfilt b a zi p (lin c x x') = lin c (filtfilt b a zi p x) (filtfilt b a zi p x') :=
+  filtfilt_lin b a zi p c x x' h
+
+/-- … and returns as many samples as it was given (`padlen` samples are available on both sides) -/
+theorem model_filtfilt_length (b a zi : List K) (p : ℕ) (x : List K) :
+    (filtfilt b a zi p x).length = x.length := by
+  unfold filtfilt
+  simp only [List.length_take, List.length_drop, List.length_reverse, lfilterZ_length, oddExt_length]
+  omega
+
+/-- **`FilterAnalyzer.filtfilt` (hence `fir` and `iir`, stage by stage) is linear in the data**: the
+DC-restoring wrapper around the MODELLED `scipy.signal.filtfilt` maps `c·x + x'` to
+`c·F(x) + F(x')` — no assumption on the external routine left, only the model of its algorithm
+(compared with scipy on every run, op `filtfilt`). -/
+theorem filtfilt_analyzer_linear (b a zi : List K) (p : ℕ) (c : K) (x x' : List K) (h : x.length = x'.length) :
+    filtfiltWrapper (filtfilt b a zi p) (lin c x x')
+      = lin c (filtfiltWrapper (filtfilt b a zi p) x) (filtfiltWrapper (filtfilt b a zi p) x') := by
+  unfold filtfiltWrapper restoreDC
+  have hl : (filtfilt b a zi p x).length = (filtfilt b a zi p x').length := by
+    rw [model_filtfilt_length, model_filtfilt_length, h]
+  rw [model_filtfilt_linear b a zi p c x x' h, mean_lin c x x' h, mean_lin c _ _ hl]
+  unfold lin
+  rw [List.zipWith_map_left, List.zipWith_map_right, List.map_zipWith]
+  congr 1
+  funext u v
+  ring
+
+/-- non-vacuity: a 2-tap moving average run through the model on a rational signal -/
+example : filtfilt ([1/2, 1/2] : List Rat) [1, 0] [1/2] 1 [0, 2, 4, 2]
+    = [0, 2, 3, 2] := by decide +kernel
+
+end filtfiltModel
 
 /-! ### FIR band edges -/
 section fir
